@@ -320,7 +320,8 @@ def printers(h):
     if win is not None:
         # python back end: .upper() on a fully symbolic string is too heavy for z3; a 3-character symbolic window slides over the hash
         base = "0a1b2c3d4e"
-        h = base[:win] + h[win:win + 3] + base[win + 3:]
+        wl = sh("wlen", 3)
+        h = base[:win] + h[win:win + wl] + base[win + wl:]
     m = P.MDF("raw", h, "NAME", 5, pathlib.Path("x.yaml"))
     m.fields.append(P.Field("a", "int32", P.supported_types["int32"]))
     want = h[:8]
